@@ -4,20 +4,25 @@ import vlib
 
 PROOFS = ["C04/ProofsList.vo", "C04/ProofsPerm.vo", "C04/ProofsDet.vo", "C04/ProofsBS.vo", "C04/ProofsGJ.vo",
           "C04/ProofsGJ2.vo", "C04/ProofsGJ3.vo", "C04/ProofsGJ4.vo", "C04/ProofsSing.vo", "C04/ProofsInv.vo",
-          "C04/ProofsDet2.vo", "C04/ProofsEx.vo", "C04/ProofsNaN.vo", "C04/ProofsNaN2.vo", "C04/ProofsDet3.vo"]
+          "C04/ProofsDet2.vo", "C04/ProofsEx.vo", "C04/ProofsNaN.vo", "C04/ProofsNaN2.vo", "C04/ProofsDet3.vo",
+          "C04/ProofsBuf.vo", "C04/ProofsHist.vo", "C04/ProofsPD.vo"]
 TARGETS = ["Base/Num.vo", "Base/Corr.vo", "C04/Model.vo", "C04/Model2.vo", "C04/Corr.vo", "C04/Spec.vo", "C04/SpecTest.vo"] + \
           [p for p in PROOFS if os.path.exists(os.path.join(vlib.COQ, p[:-1]))] + ["C04/Props.vo"]
 PROPS = ["C04/Props.v"]
-PARTIAL = ("Theorems are over an arbitrary field (exact arithmetic) about the hand-written model coq/C04/Model.v (full Gauss-Jordan "
-           "contract incl. sub-matrix selection, upper-triangular variant, the three matrixInverse modes, singular structure) and "
+PARTIAL = ("Theorems are over an arbitrary field (exact arithmetic) about the hand-written model coq/C04/Model.v + Model2.v (full Gauss-Jordan "
+           "contract incl. sub-matrix selection, upper-triangular variant, the three matrixInverse modes at /repo HEAD, singular structure) and "
            "over the NaN-aware carrier option K (None = any non-finite value) for the singular exits; the step from exact to "
-           "binary64 arithmetic is not proved: it is bounded per sampled case by the bit-exact replay of the model at Coq's "
-           "primitive floats against the Go results and by exact rational residual goals on Go's output. The PositiveDefinite "
-           "inverse theorem takes the Cholesky factor's properties (lower triangular, L*L^T = A) as hypotheses and a leading-block "
-           "selection (other selections: known finding F-C04-PD-SUBMATRIX). determinantNaive is identified with the determinant through its characterisation (multilinear in every row, alternating for "
-           "adjacent rows, det I = 1), not through det(A*B) or a permutation-sum formula. Float32/Real32 element types are exercised "
-           "by the hunt oracle only; LogScale (math.Log) is checked by the hunt oracle against the logarithm of the exact "
-           "determinant, not replayed in Coq.")
+           "binary64 / binary32 arithmetic is not proved: it is bounded per sampled case by the bit-exact replay of the model at Coq's "
+           "primitive floats (binary32 = binary64 operation followed by SpecFloat rounding to 24 bits) against the Go results and by exact "
+           "rational residual goals on Go's output. The PositiveDefinite inverse theorem (every sub-matrix mask) takes the Cholesky "
+           "factor's properties (lower triangular, non-zero diagonal, L*L^T = masked matrix) as hypotheses (subject of C05). "
+           "determinantNaive is identified with the determinant through its characterisation (multilinear in every row, alternating for "
+           "adjacent rows, det I = 1), not through det(A*B) or a permutation-sum formula. History independence is a theorem about the "
+           "MODEL (which has no hidden state; caller-supplied Id/A/B/X buffers are explicit and proved irrelevant, Cholesky.L buffers are "
+           "not covered by the theorem); that the IMPLEMENTATION has no hidden state is tested, not proved: sequences of calls over "
+           "Float32/Float64/Real32/Real64 and all routines in one process, each compared bit-exactly with the history-free model. "
+           "LogScale: math.Log values at the Cholesky diagonal are taken from a table recorded by the harness (not certified in Coq); "
+           "the hunt oracle compares with the logarithm of the exact determinant.")
 CORPUS = os.path.join(vlib.ROOT, "corpus/C04/corpus.jsonl")
 
 
@@ -95,6 +100,8 @@ def known(failure, case):
 def run(ctx):
     ctx.cov["trusted_base"] = vlib.TRUSTED_BASE_COMMON + [
         "Coq primitive floats (PrimFloat, evaluated by vm_compute) reproduce IEEE binary64 + - * / sqrt abs and comparisons; used only in the correspondence, never in a theorem",
+        "binary32 (Float32/Real32): r32 (x op64 y) with r32 = SpecFloat.binary_normalize 24 128 equals the correctly rounded binary32 operation (double rounding innocuous, 53 >= 2*24+2) and Go's float32() conversion",
+        "math.Log at the Cholesky diagonal entries (LogScale determinant): values recorded by the harness, looked up by the model",
         "Go's %x float formatting and Coq's hexadecimal float parser; error kinds are derived from Go's error / panic message text",
         "axioms: see 'print_assumptions' (expected: closed under the global context)"]
     ctx.cov["partial"] = PARTIAL
